@@ -45,6 +45,73 @@ pub fn run(o: &mut Out, _tier: &str, seed: u64) {
 /// tag bytes by the book (cryptonote_config.h), written here independently of the library and of the Lean tables
 const BOOK: [(Network, [u8; 3]); 3] = [(Network::Mainnet, [18, 19, 42]), (Network::Testnet, [53, 54, 63]), (Network::Stagenet, [24, 25, 36])];
 
+/// Families added after the second batch of seeded changes; every case is an operation line (model / spec comparison) AND a
+/// direct check against the book table written above.
+/// * a first byte `0x80 | tag` followed by `0x00` (and by `0x80 0x00`, `0x80 0x80 0x00`, `0x01`): what a varint-style tag reader
+///   would take for `tag` (resp. for `tag + 128`); the tag is ONE byte, so all of them are rejected, under every network, at
+///   every length from 2 up, whatever the rest is;
+/// * blobs of 73 bytes and more behind the six NON-integrated tags (a reader that extracts "the payment id if the blob has one"
+///   first): accepted as Standard / SubAddress at every length, lengths 73..=81, 128, 160, 161, 255, 256, 1000, several contents,
+///   among them the blob of a real integrated address re-tagged;
+/// * `from_u8` at the edges of the table: the smallest and the largest tag (18, 63), the largest tag of every network (42, 63, 36),
+///   every tag's two neighbours, 0, 17, 64, 127, 128, 255 and `0x80 | tag`; each tag also through `Address::from_bytes` of a
+///   whole address blob.
+fn seeded(o: &mut Out, rng: &mut Rng) {
+    let show = |r: Result<AddressType, monero::util::address::Error>| match r { Ok(AddressType::Standard) => "ok Standard".to_string(), Ok(AddressType::SubAddress) => "ok SubAddress".into(), Ok(AddressType::Integrated(p)) => format!("ok Integrated {}", hex(&p.0)), Err(_) => "err".into() };
+    let all_tags: Vec<u8> = BOOK.iter().flat_map(|x| x.1).collect();
+    // --- varint-style first bytes
+    for n in NETS { for &t in &all_tags { for cont in [&[0u8][..], &[0x80, 0], &[0x80, 0x80, 0], &[1]] { for len in [2usize, 3, 4, 5, 65, 66, 69, 70, 73, 74, 77, 78, 80, 81] { for fill in 0..2 {
+        if len < 1 + cont.len() { continue; }
+        let mut x: Vec<u8> = if fill == 0 { vec![0u8; len] } else { rng.bytes(len) };
+        x[0] = 0x80 | t; x[1..1 + cont.len()].copy_from_slice(cont);
+        let r = o.op(format!("addrtype {} {}", net_name(n), hex(&x)), true);
+        o.stat(&format!("varint_style_first_byte.{}", r.split(' ').take(2).collect::<Vec<_>>().join("_")));
+        let d = show(AddressType::from_slice(&x, n));
+        o.direct(d == "err" && r == "err", "from_slice rejects a first byte 0x80|tag whatever follows (0x00 included): the tag is one byte, not a varint", format!("addrtype {} {}", net_name(n), hex(&x)), d, "err".into());
+    } } } } }
+    for &t in &all_tags { let b = 0x80 | t; let r = Network::from_u8(b); o.direct(r.is_err(), "from_u8(0x80|tag) is an error", format!("net_of {}", b), format!("{:?}", r), "Err".into()); o.op(format!("net_of {}", b), false); }
+    // --- long blobs behind the non-integrated tags
+    let key = |r: &mut Rng| { let mut k = r.arr32(); k[31] &= 0x0f; monero::PublicKey::from_private_key(&monero::PrivateKey::from_slice(&k).unwrap()) };
+    for (n, row) in BOOK { for (i, kn) in [(0usize, "Standard"), (2, "SubAddress")] {
+        let integ = monero::Address::integrated(n, key(rng), key(rng), PaymentId::from_slice(&rng.bytes(8))).as_bytes();
+        for len in [73usize, 74, 75, 76, 77, 78, 79, 80, 81, 128, 160, 161, 255, 256, 1000] { for pat in 0..4 {
+            let mut x: Vec<u8> = match pat { 0 => vec![0u8; len], 1 => vec![0xff; len], 2 => rng.bytes(len), _ => { let mut v = integ.clone(); v.resize(len, 0); v } };
+            x[0] = row[i];
+            let r = o.op(format!("addrtype {} {}", net_name(n), hex(&x)), true);
+            o.stat(&format!("long_blob_nonintegrated_tag.{}", r.split(' ').take(2).collect::<Vec<_>>().join("_")));
+            let d = show(AddressType::from_slice(&x, n));
+            let want = format!("ok {}", kn);
+            o.direct(d == want && r == want, "from_slice accepts a standard / sub-address tag on a blob of 73 bytes or more (no payment id is looked for)", format!("addrtype {} {}", net_name(n), hex(&x)), d, want);
+        } }
+    } }
+    // --- edges of the from_u8 table
+    let book_net = |b: u8| BOOK.iter().find(|x| x.1.contains(&b)).map(|x| x.0);
+    let (lo, hi) = (*all_tags.iter().min().unwrap(), *all_tags.iter().max().unwrap());
+    o.direct(lo == 18 && hi == 63, "book table: smallest tag 18, largest tag 63", "BOOK".into(), format!("{} {}", lo, hi), "18 63".into());
+    let mut edge: Vec<u8> = vec![0, 1, 17, 64, 127, 128, 254, 255, lo, hi, lo - 1, hi + 1];
+    for &t in &all_tags { edge.extend([t - 1, t, t + 1, 0x80 | t, t.wrapping_sub(lo), t.wrapping_add(lo)]); }
+    for (_, row) in BOOK { edge.push(*row.iter().max().unwrap()); edge.push(*row.iter().min().unwrap()); }
+    edge.sort(); edge.dedup();
+    for b in edge {
+        let r = o.op(format!("net_of {}", b), true); o.stat("from_u8_edges");
+        let want = match book_net(b) { Some(n) => format!("ok {}", net_name(n)), None => "err".into() };
+        o.direct(r == want, "from_u8 at the edges of the table (smallest / largest tag, every tag's neighbours, 0x80|tag)", format!("net_of {}", b), r, want);
+    }
+    let r63 = Network::from_u8(63);
+    o.direct(matches!(r63, Ok(Network::Testnet)), "from_u8(63) == Testnet (the largest tag: testnet sub-address)", "net_of 63".into(), format!("{:?}", r63), "Ok(Testnet)".into());
+    for (n, row) in BOOK { for (i, &t) in row.iter().enumerate() {
+        let (s, v) = (key(rng), key(rng));
+        let a = match i { 0 => monero::Address::standard(n, s, v), 1 => monero::Address::integrated(n, s, v, PaymentId::from_slice(&rng.bytes(8))), _ => monero::Address::subaddress(n, s, v) };
+        let ab = a.as_bytes();
+        let back = monero::Address::from_bytes(&ab);
+        o.direct(ab[0] == t && back.as_ref().ok() == Some(&a), "an address with this tag is written with the tag and read back (from_u8 and from_slice inside Address::from_bytes)", format!("tag {} {}", t, hex(&ab)), format!("{:?}", back.map(|x| x.to_string())), "the address".into());
+        let st = a.to_string();
+        let back = <monero::Address as std::str::FromStr>::from_str(&st);
+        o.direct(back.as_ref().ok() == Some(&a), "an address with this tag is read back from its text", format!("tag {} {}", t, st), format!("{:?}", back.map(|x| x.to_string())), "the address".into());
+    } }
+    o.notes.push("added families (2): first byte 0x80|tag followed by 00 / 80 00 / 80 80 00 / 01 (varint-style tag spellings) for 9 tags x 3 networks x 14 lengths x 2 fills, all rejected; blobs of 73..1000 bytes behind the six non-integrated tags (4 contents, incl. a re-tagged integrated address blob), all accepted; from_u8 at the table edges (18, 63, each tag's neighbours, 0x80|tag) and each tag through Address::from_bytes / from_str; the book check of from_slice now on every length 1..=80".into());
+}
+
 /// Families added after the audit (all randomness from a generator of its own, derived from the seed):
 /// * `net_tag N Integrated <pid>`: the tag does not depend on the payment id;
 /// * payload variation: the lookup must depend on byte 0, the length and bytes 65..73 ONLY — all-zero / all-ff / random
@@ -123,13 +190,17 @@ fn extra(o: &mut Out, seed: u64) {
         let t = n.as_u8(&kind_of(i, *p));
         o.direct(t == row[i], "as_u8(N, t) is the book's tag (9 pairs, several payment ids incl. all-zero and all-equal)", format!("{} {} {}", net_name(n), k, hex(p)), t.to_string(), row[i].to_string());
     } } }
-    for (n, row) in BOOK { for b in 0..=255u8 { for len in [1usize, 64, 65, 72, 73, 74, 77] { for pat in 0..3 {
+    // (every length 0..=80 — the exhaustive grid of the operation lines — so that the grid keeps an oracle that does not pass through Lean:
+    // for the `addrtype` operation the spec column is provably the model column, `C20_type_total`)
+    for (n, row) in BOOK { for b in 0..=255u8 { for len in 1..=80usize { for pat in 0..3 {
         let mut x: Vec<u8> = match pat { 0 => vec![0u8; len], 1 => vec![b; len], _ => rng.bytes(len) }; x[0] = b;
         let r = match AddressType::from_slice(&x, n) { Ok(AddressType::Standard) => "ok Standard".to_string(), Ok(AddressType::SubAddress) => "ok SubAddress".into(), Ok(AddressType::Integrated(p)) => format!("ok Integrated {}", hex(&p.0)), Err(_) => "err".into() };
         let want = if b == row[0] { "ok Standard".to_string() } else if b == row[2] { "ok SubAddress".to_string() }
             else if b == row[1] && len >= 73 { format!("ok Integrated {}", hex(&x[65..73])) } else { "err".to_string() };
-        o.direct(r == want, "from_slice(blob, N) by the book on every (network, first byte), lengths around 65 / 73 / 77, zero / all-equal / random payload", format!("addrtype {} {}", net_name(n), hex(&x)), r, want);
+        o.direct(r == want, "from_slice(blob, N) by the book on every (network, first byte), every length 1..=80, zero / all-equal / random payload", format!("addrtype {} {}", net_name(n), hex(&x)), r, want);
     } } } }
+    for n in NETS { let r = AddressType::from_slice(&[], n); o.direct(r.is_err(), "from_slice(empty blob, N) is an error", format!("addrtype {} -", net_name(n)), format!("{:?}", r), "Err".into()); }
+    seeded(o, &mut rng);
     // --- the SEQUENCE from_u8(b) then from_slice([b, ..], another network), for every tag b: a hand-over of the network from the
     // first lookup to the second (thread-local, static) would skip the network test. Directly, and as consecutive operation lines.
     for (n, row) in BOOK { for (i, &b) in row.iter().enumerate() { for m in NETS { if m == n { continue; }
